@@ -31,7 +31,7 @@ RULE = ("TLC behaviours of Gen_CalcEnv (environment transition cover: late creat
 
 
 def make_P(ctx):
-    return cc.make_P(ctx, CFG, UNIVERSES, nontrivial, RULE, design=False, quick_beh=150, n_random=(150, 1500))
+    return cc.make_P(ctx, CFG, UNIVERSES, nontrivial, RULE, design=False, quick_beh=150, n_random=(150, 3000))
 
 
 def run(ctx):
